@@ -536,4 +536,9 @@ type onceState struct {
 type wgState struct {
 	n  int64
 	vc vclock
+	// sema stands for the location the race detector uses to flag "Add from
+	// zero concurrent with Wait" (sync.WaitGroup's own race annotations: the
+	// first increment is a read, the first blocking Wait a write of wg.sema)
+	sema    *value
+	waiters int
 }
